@@ -131,8 +131,11 @@
 #include <osmium/osm/timestamp.hpp>
 #include <osmium/osm/way.hpp>
 
+#include <csignal>
 #include <cstring>
 #include <limits>
+#include <sys/time.h>
+#include <unistd.h>
 #include <memory>
 #include <stdexcept>
 #include <utility>
@@ -1012,11 +1015,28 @@ static std::string process(const std::string& line) {
     return out;
 }
 
+// Watchdog on the CPU time of ONE op (independent of the load of the machine): an op that needs
+// more than 4 s of CPU is a hang (e.g. an iterator that meets an item of size 0 never advances).
+static void on_cpu_watchdog(int) {
+    static const char msg[] = "HANG: op exceeded the CPU-time watchdog\n";
+    ssize_t r = ::write(2, msg, sizeof(msg) - 1);
+    (void)r;
+    ::_exit(97);
+}
+
+static void arm_watchdog() {
+    struct itimerval tv{};
+    tv.it_value.tv_sec = 4;
+    ::setitimer(ITIMER_PROF, &tv, nullptr);
+}
+
 int main() {
     // Like vh::line_loop, but flushes after every line so that nothing is lost when ASan aborts.
     std::ios::sync_with_stdio(false);
+    std::signal(SIGPROF, on_cpu_watchdog);
     std::string line;
     while (std::getline(std::cin, line)) {
+        arm_watchdog();
         std::string out = process(line);
         out += '\n';
         std::fwrite(out.data(), 1, out.size(), stdout);
